@@ -28,7 +28,7 @@ def P(pid, **kw):
     PROPS[pid] = kw
 
 
-P('C01', claimed=True, level='other',
+P('C01', claimed=True, needs_driver=True, level='other',
   contracts=['synth_specialindex', 'synth_ugen'], drivers=['vf.drivers.C01'],
   level_text=('The opcode numbers of every operator name and Python alias, and the selector each '
               'AbstractObject operator method passes, are exhaustive finite obligations on the real '
@@ -43,7 +43,7 @@ P('C01', claimed=True, level='other',
               'independent SCgf-2 reader and denotation normal form (oracles), Opcodes.h numbering.'),
   unreached=['acceptance by a real scsynth'])
 
-P('C02', claimed=True, level='other',
+P('C02', claimed=True, needs_driver=True, level='other',
   contracts=['synth_fmtrw'], drivers=['vf.drivers.C02'],
   level_text=('Byte lengths and value ranges of the binary writers are discharged obligations; '
               'well-formedness of whole definitions (complete parse as one SCgf-2 definition, wires '
@@ -236,7 +236,7 @@ P('C19', claimed=True, level='other',
               'Betweenness tolerance 1e-9 (1e-5 with cubed segments).'),
   technique='exhaustive table obligations on the real functions + bounded run-time contracts against an independent Env reference')
 
-P('C20', claimed=True, level='other',
+P('C20', claimed=True, needs_driver=True, level='other',
   contracts=['synth_synthdef'], drivers=['vf.drivers.C20'],
   level_text=('SynthDef._build is proved to leave the build context clear and the lock released on every '
               'outcome of its three phases (frame condition over try/except and with); a static '
